@@ -487,6 +487,8 @@ func session(c *ev.Case, withCorruption bool) {
 	var wErr [2]error
 	var wShort [2]string
 	var readerGone [2]bool
+	var afterErr [2]int
+	var afterGot [2]string
 	var rgMu sync.Mutex
 	var wg sync.WaitGroup
 	wg.Add(4)
@@ -517,6 +519,23 @@ func session(c *ev.Case, withCorruption bool) {
 				readerGone[i] = true
 				rgMu.Unlock()
 				d.pipe.close()
+				if withCorruption && co.dir == i && outs[i].err != nil && !outs[i].aborted {
+					// A connection that reported an error must not hand out plaintext afterwards (the
+					// rejected frame's bytes would be missing in front of it).  The transport is closed
+					// for writing and drains what is queued, so these reads cannot block.
+					buf := make([]byte, 2048)
+					for k := 0; k < 4; k++ {
+						n, err := conns[1-i].Read(buf)
+						c.Count("reads_after_error", 1)
+						if n > 0 {
+							afterErr[i] += n
+							afterGot[i] = hexClip(buf[:n])
+						}
+						if err == io.EOF || (n == 0 && err == nil) {
+							break
+						}
+					}
+				}
 			}
 		}()
 	}
@@ -612,6 +631,11 @@ func session(c *ev.Case, withCorruption bool) {
 			c.Violation("corrupt:not-detected", "one ciphertext byte was modified in transit, yet the receiver read the whole stream without an error", w)
 		default:
 			c.Count("corruptions_detected", 1)
+			if afterErr[i] > 0 {
+				w["bytes_after_error"] = afterErr[i]
+				w["got_after_error"] = afterGot[i]
+				c.Violation("corrupt:bytes-delivered-after-the-error", "after Read reported the modified frame, a further Read on the same connection delivered plaintext: the rejected frame's bytes are lost in front of it", w)
+			}
 			// modelOK cannot be evaluated here (the writer may have been cut short); the per-frame model
 			// was validated by the clean directions of this run (counter frame_model_mismatch).
 			if frameModelBroken.Load() {
@@ -739,6 +763,7 @@ func TestC32(t *testing.T) {
 	r.Floor("messages_multi_frame", 500)
 	r.Floor("messages_empty", 50)
 	r.Floor("corruptions_detected", 500)
+	r.Floor("reads_after_error", 500)
 	for _, reg := range []string{"tag", "len", "data", "padding"} {
 		r.Floor("corrupt_region_"+reg, 20)
 	}
